@@ -36,10 +36,10 @@ func (s State) String() string {
 		s.A, s.X, s.Y, s.S, s.D, s.DBR, s.K, s.PC, s.P, s.E, s.Stopped)
 }
 
-type mnem int
+type Mnem int
 
 const (
-	ADC mnem = iota
+	ADC Mnem = iota
 	AND
 	ASL
 	BCC
@@ -131,55 +131,55 @@ const (
 	WDM
 	XBA
 	XCE
-	nMnem
+	NMnem
 )
 
 var MnemNames = [...]string{"adc", "and", "asl", "bcc", "bcs", "beq", "bit", "bmi", "bne", "bpl", "bra", "brk", "brl", "bvc", "bvs", "clc", "cld", "cli", "clv", "cmp", "cop", "cpx", "cpy", "dec", "dex", "dey", "eor", "inc", "inx", "iny", "jml", "jmp", "jsl", "jsr", "lda", "ldx", "ldy", "lsr", "mvn", "mvp", "nop", "ora", "pea", "pei", "per", "pha", "phb", "phd", "phk", "php", "phx", "phy", "pla", "plb", "pld", "plp", "plx", "ply", "rep", "rol", "ror", "rti", "rtl", "rts", "sbc", "sec", "sed", "sei", "sep", "sta", "stp", "stx", "sty", "stz", "tax", "tay", "tcd", "tcs", "tdc", "trb", "tsb", "tsc", "tsx", "txa", "txs", "txy", "tya", "tyx", "wai", "wdm", "xba", "xce"}
 
-type amode int
+type Mode int
 
 const (
-	Imp   amode = iota // implied / stack / none
-	Acc                // A
-	ImmM               // #imm, size by M
-	ImmX               // #imm, size by X
-	Imm8               // #imm8 (REP/SEP/COP/WDM/BRK signature)
-	Imm16              // PEA
+	Imp   Mode = iota // implied / stack / none
+	Acc               // A
+	ImmM              // #imm, size by M
+	ImmX              // #imm, size by X
+	Imm8              // #imm8 (REP/SEP/COP/WDM/BRK signature)
+	Imm16             // PEA
 	Dp
 	DpX
 	DpY
-	DpInd      // (dp)
-	DpIndX     // (dp,X)
-	DpIndY     // (dp),Y
-	DpIndL     // [dp]
-	DpIndLY    // [dp],Y
-	Abs        // abs
-	AbsX       // abs,X
-	AbsY       // abs,Y
-	AbsL       // long
-	AbsLX      // long,X
-	AbsInd     // (abs)
-	AbsIndX    // (abs,X)
-	AbsIndL    // [abs]
-	Rel8       // rel8
-	Rel16      // rel16
-	Sr         // sr,S
-	SrIndY     // (sr,S),Y
-	BlockMv    // dst,src
-	nMode
+	DpInd   // (dp)
+	DpIndX  // (dp,X)
+	DpIndY  // (dp),Y
+	DpIndL  // [dp]
+	DpIndLY // [dp],Y
+	Abs     // abs
+	AbsX    // abs,X
+	AbsY    // abs,Y
+	AbsL    // long
+	AbsLX   // long,X
+	AbsInd  // (abs)
+	AbsIndX // (abs,X)
+	AbsIndL // [abs]
+	Rel8    // rel8
+	Rel16   // rel16
+	Sr      // sr,S
+	SrIndY  // (sr,S),Y
+	BlockMv // dst,src
+	NMode
 )
 
 var ModeNames = [...]string{"imp", "acc", "immM", "immX", "imm8", "imm16", "dp", "dp,X", "dp,Y", "(dp)", "(dp,X)", "(dp),Y", "[dp]", "[dp],Y", "abs", "abs,X", "abs,Y", "long", "long,X", "(abs)", "(abs,X)", "[abs]", "rel8", "rel16", "sr,S", "(sr,S),Y", "blk"}
 
 type Op struct {
-	M    mnem
-	Mode amode
+	M    Mnem
+	Mode Mode
 	set  bool
 }
 
 var Table [256]Op
 
-func def(op int, m mnem, mode amode) {
+func def(op int, m Mnem, mode Mode) {
 	if Table[op].set {
 		panic(fmt.Sprintf("opcode %02x defined twice", op))
 	}
@@ -190,7 +190,7 @@ func init() {
 	// the eight "group one" ALU ops share one column layout
 	g1 := []struct {
 		base int
-		m    mnem
+		m    Mnem
 	}{{0x00, ORA}, {0x20, AND}, {0x40, EOR}, {0x60, ADC}, {0x80, STA}, {0xA0, LDA}, {0xC0, CMP}, {0xE0, SBC}}
 	for _, g := range g1 {
 		def(g.base+0x01, g.m, DpIndX)
@@ -215,7 +215,7 @@ func init() {
 	// shifts / rotates
 	for _, g := range []struct {
 		base int
-		m    mnem
+		m    Mnem
 	}{{0x00, ASL}, {0x20, ROL}, {0x40, LSR}, {0x60, ROR}} {
 		def(g.base+0x06, g.m, Dp)
 		def(g.base+0x0A, g.m, Acc)
@@ -376,8 +376,32 @@ func Len(op byte, p byte) int {
 
 type cpu struct {
 	State
-	m Mem
+	m  Mem
+	ev uint32
 }
+
+// coverage events reported by Step (bitset in Info.Ev)
+const (
+	EvOperandWrap    = 1 << iota // operand bytes wrapped inside bank K
+	EvDpWrap                     // D + dp (+ index) overflowed 16 bits
+	EvBank0DataWrap              // 16-bit datum in bank 0 at $FFFF: high byte from $0000
+	EvPtrWrap                    // pointer bytes wrapped at the end of their bank
+	EvIndexBankCarry             // DBR:base + index carried into the next bank
+	EvEA24Overflow               // effective address exceeded $FFFFFF before masking
+	EvDataBankCross              // 16-bit datum straddles two banks
+	EvData24Wrap                 // 16-bit datum at $FFFFFF: high byte from $000000
+	EvStackWrap                  // S wrapped through $0000/$FFFF
+	EvWidthChange                // M or X changed
+	EvXHighCleared               // X went 0->1 with a non-zero high byte in X or Y
+	EvBlockRepeat                // MVN/MVP re-executes
+	EvBranchTaken
+	EvBranchBackward
+	EvDecimal
+	EvData16 // a 16-bit data access happened
+	NEvents  = 16
+)
+
+var EvNames = [...]string{"operand-wrap", "dp-wrap", "bank0-data-wrap", "ptr-wrap", "index-bank-carry", "ea24-overflow", "data-bank-cross", "data24-wrap", "stack-wrap", "width-change", "xhigh-cleared", "block-repeat", "branch-taken", "branch-backward", "decimal", "data16"}
 
 func (c *cpu) m8() bool { return c.P&fM != 0 }
 func (c *cpu) x8() bool { return c.P&fX != 0 }
@@ -390,8 +414,20 @@ func (c *cpu) wr0(a uint16, v byte) { c.m.Wr(uint32(a), v) }
 // program-bank fetch, wraps inside bank K
 func (c *cpu) pb(off uint16) byte { return c.m.Rd(uint32(c.K)<<16 | uint32(c.PC+off)) }
 
-func (c *cpu) push(v byte) { c.wr0(c.S, v); c.S-- }
-func (c *cpu) pull() byte  { c.S++; return c.rd0(c.S) }
+func (c *cpu) push(v byte) {
+	c.wr0(c.S, v)
+	if c.S == 0 {
+		c.ev |= EvStackWrap
+	}
+	c.S--
+}
+func (c *cpu) pull() byte {
+	if c.S == 0xFFFF {
+		c.ev |= EvStackWrap
+	}
+	c.S++
+	return c.rd0(c.S)
+}
 func (c *cpu) push16(v uint16) {
 	c.push(byte(v >> 8))
 	c.push(byte(v))
@@ -403,8 +439,14 @@ func (c *cpu) pull16() uint16 {
 }
 
 func (c *cpu) setP(p byte) {
+	if (c.P^p)&(fM|fX) != 0 {
+		c.ev |= EvWidthChange
+	}
 	c.P = p
 	if c.P&fX != 0 {
+		if c.X > 0xFF || c.Y > 0xFF {
+			c.ev |= EvXHighCleared
+		}
 		c.X &= 0xFF
 		c.Y &= 0xFF
 	}
@@ -439,18 +481,24 @@ func (c *cpu) flag(f byte, on bool) {
 // operand location: either a 24-bit address with a rule for the second byte,
 // or the accumulator.
 type loc struct {
-	acc   bool
-	a0    uint32 // first byte
-	a1    uint32 // second byte (already wrapped according to the mode's rule)
+	acc bool
+	a0  uint32 // first byte
+	a1  uint32 // second byte (already wrapped according to the mode's rule)
 }
 
 func bank0(a uint16) loc { return loc{a0: uint32(a), a1: uint32(a + 1)} }
 func lin(a uint32) loc   { a &= 0xFFFFFF; return loc{a0: a, a1: (a + 1) & 0xFFFFFF} }
 
 func (c *cpu) ptr16(a uint16) uint16 { // 16-bit pointer in bank 0, wrapping in bank 0
+	if a == 0xFFFF {
+		c.ev |= EvPtrWrap
+	}
 	return uint16(c.rd0(a)) | uint16(c.rd0(a+1))<<8
 }
 func (c *cpu) ptr24(a uint16) uint32 {
+	if a >= 0xFFFE {
+		c.ev |= EvPtrWrap
+	}
 	return uint32(c.rd0(a)) | uint32(c.rd0(a+1))<<8 | uint32(c.rd0(a+2))<<16
 }
 
@@ -458,46 +506,68 @@ func (c *cpu) idxX() uint32 { return uint32(c.X) }
 func (c *cpu) idxY() uint32 { return uint32(c.Y) }
 
 // resolve data operand location for data-access modes
-func (c *cpu) locate(mode amode) loc {
+func (c *cpu) locate(mode Mode) loc {
 	o1 := c.pb(1)
 	o16 := uint16(o1) | uint16(c.pb(2))<<8
 	o24 := uint32(o16) | uint32(c.pb(3))<<16
 	dbr := uint32(c.DBR) << 16
+	dp := func(idx uint16) uint16 {
+		if uint32(c.D)+uint32(o1)+uint32(idx) > 0xFFFF {
+			c.ev |= EvDpWrap
+		}
+		return c.D + uint16(o1) + idx
+	}
+	sum := func(base, idx uint32) uint32 {
+		r := base + idx
+		if r>>16 != base>>16 {
+			c.ev |= EvIndexBankCarry
+		}
+		if r > 0xFFFFFF {
+			c.ev |= EvEA24Overflow
+		}
+		return r
+	}
 	switch mode {
 	case Acc:
 		return loc{acc: true}
 	case ImmM, ImmX, Imm8, Imm16:
 		return loc{a0: uint32(c.K)<<16 | uint32(c.PC+1), a1: uint32(c.K)<<16 | uint32(c.PC+2)}
 	case Dp:
-		return bank0(c.D + uint16(o1))
+		return bank0(dp(0))
 	case DpX:
-		return bank0(c.D + uint16(o1) + c.X)
+		return bank0(dp(c.X))
 	case DpY:
-		return bank0(c.D + uint16(o1) + c.Y)
+		return bank0(dp(c.Y))
 	case DpInd:
-		return lin(dbr | uint32(c.ptr16(c.D+uint16(o1))))
+		return lin(dbr | uint32(c.ptr16(dp(0))))
 	case DpIndX:
-		return lin(dbr | uint32(c.ptr16(c.D+uint16(o1)+c.X)))
+		return lin(dbr | uint32(c.ptr16(dp(c.X))))
 	case DpIndY:
-		return lin((dbr | uint32(c.ptr16(c.D+uint16(o1)))) + c.idxY())
+		return lin(sum(dbr|uint32(c.ptr16(dp(0))), c.idxY()))
 	case DpIndL:
-		return lin(c.ptr24(c.D + uint16(o1)))
+		return lin(c.ptr24(dp(0)))
 	case DpIndLY:
-		return lin(c.ptr24(c.D+uint16(o1)) + c.idxY())
+		return lin(sum(c.ptr24(dp(0)), c.idxY()))
 	case Abs:
 		return lin(dbr | uint32(o16))
 	case AbsX:
-		return lin((dbr | uint32(o16)) + c.idxX())
+		return lin(sum(dbr|uint32(o16), c.idxX()))
 	case AbsY:
-		return lin((dbr | uint32(o16)) + c.idxY())
+		return lin(sum(dbr|uint32(o16), c.idxY()))
 	case AbsL:
 		return lin(o24)
 	case AbsLX:
-		return lin(o24 + c.idxX())
+		return lin(sum(o24, c.idxX()))
 	case Sr:
+		if uint32(c.S)+uint32(o1) > 0xFFFF {
+			c.ev |= EvDpWrap
+		}
 		return bank0(c.S + uint16(o1))
 	case SrIndY:
-		return lin((dbr | uint32(c.ptr16(c.S+uint16(o1)))) + c.idxY())
+		if uint32(c.S)+uint32(o1) > 0xFFFF {
+			c.ev |= EvDpWrap
+		}
+		return lin(sum(dbr|uint32(c.ptr16(c.S+uint16(o1))), c.idxY()))
 	}
 	panic(fmt.Sprintf("locate: mode %d", mode))
 }
@@ -508,10 +578,22 @@ func (c *cpu) ld8(l loc) byte {
 	}
 	return c.m.Rd(l.a0)
 }
+func (c *cpu) ev16(l loc) {
+	c.ev |= EvData16
+	switch {
+	case l.a0 == 0xFFFFFF:
+		c.ev |= EvData24Wrap
+	case l.a0&0xFFFF == 0xFFFF && l.a1 == l.a0+1:
+		c.ev |= EvDataBankCross
+	case l.a0&0xFFFF == 0xFFFF:
+		c.ev |= EvBank0DataWrap
+	}
+}
 func (c *cpu) ld16(l loc) uint16 {
 	if l.acc {
 		return c.A
 	}
+	c.ev16(l)
 	return uint16(c.m.Rd(l.a0)) | uint16(c.m.Rd(l.a1))<<8
 }
 func (c *cpu) st8(l loc, v byte) {
@@ -526,6 +608,7 @@ func (c *cpu) st16(l loc, v uint16) {
 		c.A = v
 		return
 	}
+	c.ev16(l)
 	c.m.Wr(l.a0, byte(v))
 	c.m.Wr(l.a1, byte(v>>8))
 }
@@ -536,13 +619,14 @@ func bcdOK16(v uint16) bool { return bcdOK8(byte(v)) && bcdOK8(byte(v>>8)) }
 // DecimalDefined reports whether the last ADC/SBC executed in decimal mode had
 // operands for which the programming model defines the result (valid BCD).
 type Info struct {
-	Op          byte
-	M           mnem
-	Mode        amode
-	Decimal     bool // ADC/SBC executed with D=1
-	DecimalBCD  bool // ... and both operands were valid BCD
-	LeftNative  bool // XCE switched to emulation mode
-	Len         int
+	Op         byte
+	M          Mnem
+	Mode       Mode
+	Decimal    bool // ADC/SBC executed with D=1
+	DecimalBCD bool // ... and both operands were valid BCD
+	LeftNative bool // XCE switched to emulation mode
+	Len        int
+	Ev         uint32 // coverage events (Ev* bits)
 }
 
 func (c *cpu) adc(l loc, inf *Info) {
@@ -699,6 +783,10 @@ func (c *cpu) branch(cond bool) {
 	off := int8(c.pb(1))
 	c.PC += 2
 	if cond {
+		c.ev |= EvBranchTaken
+		if off < 0 {
+			c.ev |= EvBranchBackward
+		}
 		c.PC += uint16(int16(off))
 	}
 }
@@ -723,6 +811,9 @@ func Step(st *State, m Mem) Info {
 	e := Table[op]
 	inf := Info{Op: op, M: e.M, Mode: e.Mode, Len: Len(op, c.P)}
 	n := uint16(inf.Len)
+	if inf.Len > 1 && uint32(c.PC)+uint32(inf.Len)-1 > 0xFFFF {
+		c.ev |= EvOperandWrap
+	}
 	adv := true // advance PC by n at the end
 
 	switch e.M {
@@ -964,6 +1055,9 @@ func Step(st *State, m Mem) Info {
 			c.PC = c.ptr16(o16)
 		case AbsIndX:
 			p := o16 + c.X
+			if p == 0xFFFF {
+				c.ev |= EvPtrWrap
+			}
 			k := uint32(c.K) << 16
 			c.PC = uint16(c.m.Rd(k|uint32(p))) | uint16(c.m.Rd(k|uint32(p+1)))<<8
 		}
@@ -991,6 +1085,9 @@ func Step(st *State, m Mem) Info {
 			// operand bytes are fetched before/around the push; the pointer is read after the push
 			c.push16(c.PC + 2)
 			p := o16 + c.X
+			if p == 0xFFFF {
+				c.ev |= EvPtrWrap
+			}
 			k := uint32(c.K) << 16
 			c.PC = uint16(c.m.Rd(k|uint32(p))) | uint16(c.m.Rd(k|uint32(p+1)))<<8
 		}
@@ -1183,6 +1280,7 @@ func Step(st *State, m Mem) Info {
 		c.A--
 		if c.A != 0xFFFF {
 			adv = false
+			c.ev |= EvBlockRepeat
 		}
 	default:
 		panic(fmt.Sprintf("ref: unhandled mnemonic %d", e.M))
@@ -1190,6 +1288,10 @@ func Step(st *State, m Mem) Info {
 	if adv {
 		c.PC += n
 	}
+	if inf.Decimal {
+		c.ev |= EvDecimal
+	}
+	inf.Ev = c.ev
 	*st = c.State
 	return inf
 }
